@@ -94,3 +94,108 @@ pub fn ss_init_pull(header: &[u8; 24], key: &[u8; 32]) -> RawStream {
     assert_eq!(r, 0);
     st_to(&st)
 }
+
+// ---------------------------------------------------------------------------------------
+// secretbox / box / sealed box
+
+pub fn secretbox_easy(m: &[u8], n: &[u8; 24], k: &[u8; 32]) -> Vec<u8> {
+    let mut c = vec![0u8; m.len() + 16];
+    let r = unsafe { so::crypto_secretbox_easy(c.as_mut_ptr(), m.as_ptr(), m.len() as u64, n.as_ptr(), k.as_ptr()) };
+    assert_eq!(r, 0);
+    c
+}
+pub fn secretbox_open_easy(c: &[u8], n: &[u8; 24], k: &[u8; 32]) -> Option<Vec<u8>> {
+    if c.len() < 16 {
+        return None;
+    }
+    let mut m = vec![0u8; c.len() - 16];
+    let r = unsafe { so::crypto_secretbox_open_easy(m.as_mut_ptr(), c.as_ptr(), c.len() as u64, n.as_ptr(), k.as_ptr()) };
+    if r == 0 {
+        Some(m)
+    } else {
+        None
+    }
+}
+pub fn box_easy(m: &[u8], n: &[u8; 24], pk: &[u8; 32], sk: &[u8; 32]) -> Option<Vec<u8>> {
+    let mut c = vec![0u8; m.len() + 16];
+    let r = unsafe { so::crypto_box_easy(c.as_mut_ptr(), m.as_ptr(), m.len() as u64, n.as_ptr(), pk.as_ptr(), sk.as_ptr()) };
+    if r == 0 {
+        Some(c)
+    } else {
+        None
+    }
+}
+pub fn box_open_easy(c: &[u8], n: &[u8; 24], pk: &[u8; 32], sk: &[u8; 32]) -> Option<Vec<u8>> {
+    if c.len() < 16 {
+        return None;
+    }
+    let mut m = vec![0u8; c.len() - 16];
+    let r = unsafe { so::crypto_box_open_easy(m.as_mut_ptr(), c.as_ptr(), c.len() as u64, n.as_ptr(), pk.as_ptr(), sk.as_ptr()) };
+    if r == 0 {
+        Some(m)
+    } else {
+        None
+    }
+}
+pub fn box_beforenm(pk: &[u8; 32], sk: &[u8; 32]) -> Option<[u8; 32]> {
+    let mut k = [0u8; 32];
+    let r = unsafe { so::crypto_box_beforenm(k.as_mut_ptr(), pk.as_ptr(), sk.as_ptr()) };
+    if r == 0 {
+        Some(k)
+    } else {
+        None
+    }
+}
+pub fn box_seal(m: &[u8], pk: &[u8; 32]) -> Vec<u8> {
+    let mut c = vec![0u8; m.len() + 48];
+    let r = unsafe { so::crypto_box_seal(c.as_mut_ptr(), m.as_ptr(), m.len() as u64, pk.as_ptr()) };
+    assert_eq!(r, 0);
+    c
+}
+pub fn box_seal_open(c: &[u8], pk: &[u8; 32], sk: &[u8; 32]) -> Option<Vec<u8>> {
+    if c.len() < 48 {
+        return None;
+    }
+    let mut m = vec![0u8; c.len() - 48];
+    let r = unsafe { so::crypto_box_seal_open(m.as_mut_ptr(), c.as_ptr(), c.len() as u64, pk.as_ptr(), sk.as_ptr()) };
+    if r == 0 {
+        Some(m)
+    } else {
+        None
+    }
+}
+pub fn box_seed_keypair(seed: &[u8; 32]) -> ([u8; 32], [u8; 32]) {
+    let mut pk = [0u8; 32];
+    let mut sk = [0u8; 32];
+    unsafe { so::crypto_box_seed_keypair(pk.as_mut_ptr(), sk.as_mut_ptr(), seed.as_ptr()) };
+    (pk, sk)
+}
+pub fn scalarmult_base(n: &[u8; 32]) -> [u8; 32] {
+    let mut q = [0u8; 32];
+    unsafe { so::crypto_scalarmult_base(q.as_mut_ptr(), n.as_ptr()) };
+    q
+}
+pub fn scalarmult(n: &[u8; 32], p: &[u8; 32]) -> Option<[u8; 32]> {
+    let mut q = [0u8; 32];
+    let r = unsafe { so::crypto_scalarmult(q.as_mut_ptr(), n.as_ptr(), p.as_ptr()) };
+    if r == 0 {
+        Some(q)
+    } else {
+        None
+    }
+}
+pub fn generichash(outlen: usize, m: &[u8], key: Option<&[u8]>) -> Vec<u8> {
+    let mut out = vec![0u8; outlen];
+    let (kp, kl) = match key {
+        Some(k) => (k.as_ptr(), k.len()),
+        None => (ptr::null(), 0),
+    };
+    let r = unsafe { so::crypto_generichash(out.as_mut_ptr(), outlen, m.as_ptr(), m.len() as u64, kp, kl) };
+    assert_eq!(r, 0);
+    out
+}
+pub fn sha512(m: &[u8]) -> [u8; 64] {
+    let mut out = [0u8; 64];
+    unsafe { so::crypto_hash_sha512(out.as_mut_ptr(), m.as_ptr(), m.len() as u64) };
+    out
+}
